@@ -28,6 +28,7 @@ def run(ctx):
             R.violation("ANCHOR", "missing|" + path, "anchor function %s not found" % path, kind="ANCHOR-MISSING")
             continue
         eng = Engine(F)
+        eng.key_all = True
         args = eng.symbolic_args(b, names=["x"])
         # precondition of the property: whole seconds fit in 32 bits
         per_s = 1000000 // U
